@@ -106,7 +106,7 @@ def check_writer_census(run, f, cfg):
         for c in H.calls(fn["hir"], lambda c: (c.get("callee") or "").startswith("core::any::")):
             run.ob("C02.R2", "any:%s" % name, False, "core::any used in %s" % name, sp=c.get("sp"), cfg=cfg)
     run.ob("C02.R2", "census", True, "%d method calls on dyn SqlWriter values; all within the allowed set" % n, cfg=cfg)
-    run.floor("C02.R2", "writer-calls", n, 400, cfg)
+    run.floor("C02.R2", "writer-calls", n, {"full": 400, "single": 300}, cfg)
 
 
 def single_call(run, f, name):
